@@ -163,6 +163,21 @@ def run_impl(case):
            "views": {nm: _encl(getattr(c, nm)) for nm in ("tpr", "tnr", "frr", "far", "tar", "trr")},
            "ci_views_none": [getattr(c, nm + "_ci") is None for nm in ("fnr", "fpr", "tpr", "tnr", "frr", "far", "tar", "trr")],
            "tau": enc(tc.tau(dict(case, metric="topr")))}
+    # a returned curve belongs to the caller: later roc() calls on OTHER objects of the same size / dtype (a bootstrap sample,
+    # a shifted copy) leave its arrays alone
+    held = [np.array(np.asarray(a), copy=True) for a in (c.thresholds, c.fnr, c.fpr)]
+    if len(s.pos) and len(s.neg):
+        from score_analysis import BootstrapConfig, Scores
+        np.random.seed(len(s.pos) * 31 + len(s.neg))
+        others = [s.bootstrap_sample(BootstrapConfig(sampling_method="replacement")),
+                  Scores(s.pos + 1, s.neg + 1, nb_easy_pos=s.nb_easy_pos, nb_easy_neg=s.nb_easy_neg, score_class=s.score_class, equal_class=s.equal_class)]
+        for o in others:
+            try:
+                roc(o, fnr=fnr, fpr=fpr, thresholds=thr, nb_points=case["nb_points"], x_axis=case["x_axis"])
+                roc(o, nb_points=None, x_axis=case["x_axis"])
+            except ValueError:
+                pass
+        out["held_ok"] = all(np.array_equal(np.asarray(a), b, equal_nan=True) for a, b in zip((c.thresholds, c.fnr, c.fpr), held))
     return out
 
 
@@ -257,6 +272,9 @@ def oracle(case, res):
                 fails.append((f"C15/monotone/{ax}/{cfg}", f"{ax} decreases along the curve: point {j} has {xv[j]}, point {j + 1} has {xv[j + 1]} "
                               f"(thresholds {r['thresholds'][j]}, {r['thresholds'][j + 1]})"))
                 break
+    if r.get("held_ok") is False:
+        fails.append(("C15/history/earlier-curve-changed", "the thresholds / rates of a curve returned earlier changed after later roc() calls on "
+                                                           "other objects of the same size (a bootstrap sample, a shifted copy)"))
     # containment
     have = set(r["thresholds"])
     for t in case["thresholds"] or []:
